@@ -10,6 +10,7 @@ import (
 	"sort"
 	"strings"
 	"testing"
+	"time"
 
 	"github.com/emitter-io/emitter/internal/event"
 	"github.com/emitter-io/emitter/internal/message"
@@ -177,7 +178,25 @@ func runC05(rec5, rec13 *vk.Rec, caseID, seedIdx int, regime string) {
 	isolated := map[int]bool{}
 	unsubs := 0
 	nops := 40
+	// Swarm.update runs every 5 s in production and keeps reachable peers inside their 30 s activity window. A case normally
+	// takes a second; on a machine so loaded that it takes longer, the same update is applied here whenever 5 s of real time
+	// have passed, so that "the peer went silent" never happens by accident (it is only ever a deliberate step of a regime).
+	lastUpdate := time.Now()
+	updateAll := func() {
+		for i := 0; i < nb; i++ {
+			for j := 0; j < nb; j++ {
+				if j != i && net.Reachable(i, j) && !isolated[i] && !isolated[j] {
+					net.Nodes[i].B.Svc.VerifSwarm().VerifTouch(net.Nodes[j].Name)
+				}
+			}
+		}
+		lastUpdate = time.Now()
+	}
 	for s := 0; s < nops; s++ {
+		if time.Since(lastUpdate) > 5*time.Second {
+			ops = append(ops, "update on every broker (5 s of real time have passed)")
+			updateAll()
+		}
 		live := []*cclient{}
 		for _, c := range clients {
 			if c.alive {
